@@ -25,12 +25,13 @@
 EXTENDS XmlDoc, Json, IOUtils
 
 Rec == ndJsonDeserialize(IOEnv.TRACE)
-VARIABLE l
-Init == l \in 1..Len(Rec)
-Next == UNCHANGED l
+\* TLC does not cache Rec: the record of a line is carried in the state so the file is parsed once
+VARIABLES l, rec
+Init == LET R == Rec IN \E i \in 1..Len(R) : l = i /\ rec = R[i]
+Next == UNCHANGED <<l, rec>>
 
-Report(what, detail) == PrintT(<<"MISMATCH", ToJson([line |-> l, id |-> Rec[l].id, what |-> what, detail |-> detail])>>)
-Note(what, detail)   == PrintT(<<"NOTE", ToJson([line |-> l, id |-> Rec[l].id, what |-> what, detail |-> detail])>>)
+Report(what, detail) == PrintT(<<"MISMATCH", ToJson([line |-> l, id |-> rec.id, what |-> what, detail |-> detail])>>)
+Note(what, detail)   == PrintT(<<"NOTE", ToJson([line |-> l, id |-> rec.id, what |-> what, detail |-> detail])>>)
 
 RECURSIVE AsSeq(_)
 AsSeq(S) == IF S = {} THEN <<>> ELSE LET x == CHOOSE y \in S : TRUE IN <<x>> \o AsSeq(S \ {x})
@@ -69,6 +70,6 @@ XmlChecks(r) ==
                        doc1, "roundtrip-str")
                /\ Written(r, doc1)
 
-LineOk == LET r == Rec[l] IN IF r.ev = "Xml" THEN XmlChecks(r) ELSE TRUE
+LineOk == LET r == rec IN IF r.ev = "Xml" THEN XmlChecks(r) ELSE TRUE
 Inv == LineOk \/ TRUE
 =============================================================================
